@@ -8,6 +8,16 @@ QUEUE_RULE = ("queue: seeded random Push/Pop histories (2..40 ops + drain) over 
               "the oracles on the agreed pre-state; non-trivial = >=2 groups served or >=4 chunks; distinct = distinct input lines")
 
 
+def race_suite(oracles):
+    return dict(name="stagerace", pkg="./stage/", test="TestVerifStageRace", min_lines=10, timeout_quick=600, oracles=oracles, diffs=[],
+                env_quick={"VERIF_RACE_SWAP": 4, "VERIF_RACE_STORM": 30}, env_thorough={"VERIF_RACE_SWAP": 24, "VERIF_RACE_STORM": 600})
+
+RACE_RULE = (" stagerace (no model run, oracles on facts): the real Stage with concurrent connections: (swap) a 24..64 MiB file arrives in two parts, and "
+             "as soon as the validator has the staged file open (seen in /proc/self/fd) a second, tiny version of the same name - intact or corrupted in "
+             "transit - arrives on another connection; (storm) 2..11 files in predecessor chains, every part (1 in 5 twice) sent by 1..6 goroutines in a "
+             "random order; at quiescence: every delivered file has the announced content of one version and the hash of its last log record, nothing is "
+             "logged twice or before its predecessor, every complete file is delivered.")
+
 STAGE_RULE = ("stage: seeded operation sequences against a real Stage on a temp directory with the real log.FileIO: 1..4 files (1..24 bytes, nested names, renames, "
               "predecessor chains; profiles: plain protocol, new versions of a name, corruption (flipped bytes, short/failing readers, wrong announced hash, "
               "overwritten staged bodies), cleaning with aged partials, cycles / self / never-arriving predecessors), parts in 1..4 slices in order or shuffled, "
@@ -157,8 +167,9 @@ PROPS = {
     "C01": dict(
         coq="Properties/C01.v",
         suites=[dict(STAGE_SUITE, oracles=["delivered_content_not_validated"],
-                     diffs=["finals", "log", "stage-files", "status", "receive"])],
-        rule=STAGE_RULE,
+                     diffs=["finals", "log", "stage-files", "status", "receive"]),
+                race_suite(["delivered_content_not_validated"])],
+        rule=STAGE_RULE + RACE_RULE,
         level_text=("Proof: invariant over ALL receiver histories (any part order/grouping, duplicates, corruption in transit, overwritten partials, queries, "
                     "cleaning, timers, restarts at quiescence) in which each name is announced with one hash: every file in the final directory hashes to the "
                     "announced hash of its name and that hash is in its log record (C01_delivered_valid_on_D, byte-identity under collision-freeness); "
@@ -171,8 +182,9 @@ PROPS = {
     ),
     "C04": dict(
         coq="Properties/C04.v",
-        suites=[dict(STAGE_SUITE, oracles=["delivered_before_predecessor"], diffs=["finals", "log", "status"])],
-        rule=STAGE_RULE,
+        suites=[dict(STAGE_SUITE, oracles=["delivered_before_predecessor"], diffs=["finals", "log", "status"]),
+                race_suite(["delivered_before_predecessor", "complete_file_not_delivered"])],
+        rule=STAGE_RULE + RACE_RULE,
         level_text=("Proof (step level): the finalize handler logs/delivers a file only if its predecessor reference is empty, itself, found in the log, or "
                     "known delivered; otherwise the validated file is parked (held_is_waiting); delivery is one log record then the move. The history-level "
                     "ordering of the receive log is evaluated as an oracle on every implementation trace (cycles cleared by the cleaner exempt); end-to-end "
@@ -183,8 +195,9 @@ PROPS = {
     ),
     "C05": dict(
         coq="Properties/C05.v",
-        suites=[dict(STAGE_SUITE, oracles=["logged_twice", "delivered_version_not_recognised", "superseded_version_not_recognised"], diffs=["finals", "log", "received", "status", "stage-files"])],
-        rule=STAGE_RULE,
+        suites=[dict(STAGE_SUITE, oracles=["logged_twice", "delivered_version_not_recognised", "superseded_version_not_recognised"], diffs=["finals", "log", "received", "status", "stage-files"]),
+                race_suite(["logged_twice"])],
+        rule=STAGE_RULE + RACE_RULE,
         level_text=("Proof (step level): a finalisation appends at most one record and changes the final directory only together with it. The history-level "
                     "'exactly once' statement is evaluated as an oracle on every trace (no (name,hash) logged twice); it is refuted by the faithful model when a "
                     "failed other version of the name replaced the in-memory record of a delivery (known finding C05-F1)."),
